@@ -6,6 +6,8 @@ import (
 	"fmt"
 	"io"
 	"math"
+	"math/big"
+	"strconv"
 	"strings"
 
 	"verif/harness/lib"
@@ -389,79 +391,109 @@ func quoteStream(r *runner, tier string) int {
 }
 
 // stdTree reads the text with Go's encoding/json (token stream, numbers kept as text, member
-// order kept) and renders the tree; "ERR" when the text is not accepted.
-func stdTree(b []byte) string {
+// order kept) and renders the tree twice: with the number tokens as written (#hex) and with the
+// numbers by value (I<integer> for a token of digits, D<bits of strconv.ParseFloat> otherwise);
+// "ERR" when the text is not accepted.
+func stdTree(b []byte) (raw, byValue string) {
 	if !json.Valid(b) {
-		return "ERR"
+		return "ERR", "ERR"
 	}
 	dec := json.NewDecoder(bytes.NewReader(b))
 	dec.UseNumber()
-	s, err := stdVal(dec)
+	s, sv, err := stdVal(dec)
 	if err != nil {
-		return "ERR"
+		return "ERR", "ERR"
 	}
 	if _, err := dec.Token(); err != io.EOF {
-		return "ERR"
+		return "ERR", "ERR"
 	}
-	return s
+	return s, sv
 }
 
-func stdVal(dec *json.Decoder) (string, error) {
+func numByValue(t string) string {
+	d := t
+	if strings.HasPrefix(d, "-") {
+		d = d[1:]
+	}
+	allDigits := d != ""
+	for _, c := range d {
+		if c < '0' || c > '9' {
+			allDigits = false
+		}
+	}
+	if allDigits {
+		n, ok := new(big.Int).SetString(t, 10)
+		if ok {
+			return "I" + n.String()
+		}
+	}
+	f, err := strconv.ParseFloat(t, 64)
+	if err != nil {
+		return "?num"
+	}
+	return fmt.Sprintf("D%d", math.Float64bits(f))
+}
+
+func stdVal(dec *json.Decoder) (string, string, error) {
 	t, err := dec.Token()
 	if err != nil {
-		return "", err
+		return "", "", err
 	}
 	switch x := t.(type) {
 	case nil:
-		return "N", nil
+		return "N", "N", nil
 	case bool:
 		if x {
-			return "T", nil
+			return "T", "T", nil
 		}
-		return "F", nil
+		return "F", "F", nil
 	case json.Number:
-		return "#" + hexs([]byte(string(x))), nil
+		return "#" + hexs([]byte(string(x))), numByValue(string(x)), nil
 	case string:
-		return "S" + cps(x), nil
+		return "S" + cps(x), "S" + cps(x), nil
 	case json.Delim:
-		var parts []string
+		var parts, vparts []string
 		n := 0
 		if x == '[' {
 			for dec.More() {
-				s, err := stdVal(dec)
+				s, sv, err := stdVal(dec)
 				if err != nil {
-					return "", err
+					return "", "", err
 				}
 				parts = append(parts, s)
+				vparts = append(vparts, sv)
 				n++
 			}
 			if _, err := dec.Token(); err != nil {
-				return "", err
+				return "", "", err
 			}
-			return strings.TrimSpace(fmt.Sprintf("A%d %s", n, strings.Join(parts, " "))), nil
+			return strings.TrimSpace(fmt.Sprintf("A%d %s", n, strings.Join(parts, " "))),
+				strings.TrimSpace(fmt.Sprintf("A%d %s", n, strings.Join(vparts, " "))), nil
 		}
 		if x == '{' {
 			for dec.More() {
 				k, err := dec.Token()
 				if err != nil {
-					return "", err
+					return "", "", err
 				}
 				ks, ok := k.(string)
 				if !ok {
-					return "", fmt.Errorf("key")
+					return "", "", fmt.Errorf("key")
 				}
-				s, err := stdVal(dec)
+				s, sv, err := stdVal(dec)
 				if err != nil {
-					return "", err
+					return "", "", err
 				}
 				parts = append(parts, "S"+cps(ks), s)
+				vparts = append(vparts, "S"+cps(ks), sv)
 				n++
 			}
 			if _, err := dec.Token(); err != nil {
-				return "", err
+				return "", "", err
 			}
-			return strings.TrimSpace(fmt.Sprintf("O%d %s", n, strings.Join(parts, " "))), nil
+			return strings.TrimSpace(fmt.Sprintf("O%d %s", n, strings.Join(parts, " "))),
+				strings.TrimSpace(fmt.Sprintf("O%d %s", n, strings.Join(vparts, " "))), nil
 		}
 	}
-	return "", fmt.Errorf("unexpected token %v", t)
+	return "", "", fmt.Errorf("unexpected token %v", t)
 }
